@@ -54,9 +54,48 @@ def parse_printed_json(out):
                     raise MachineryError("unparsable verdict line: %s" % line[:200])
     return res
 
-def validate_shard(path, workers=2, timeout=3600, scratch=None):
-    out, stats = run_tlc("Trace.tla", "Trace.cfg", workers=workers, env={"TRACE_FILE": path}, timeout=timeout, scratch=scratch)
-    if "Error:" in out and "Finished in" not in out.split("Error:")[-1] or stats["rc"] not in (0,):
-        if "Error:" in out:
-            raise MachineryError("TLC error during trace validation of %s:\n%s" % (path, out[-3000:]))
-    return parse_printed_json(out), stats
+def validate_shard(path, workers=2, timeout=3600, scratch=None, max_retries=25):
+    """validate one shard. A TLC evaluation error (a typing slip in the spec on some case) aborts the JVM:
+    the offending case or session is identified from the error trace, recorded as a 'spec-error' verdict
+    (machinery failure, never a VIOLATION) and the shard is re-run for what is still undecided."""
+    verdicts = {}
+    total = {"generated": 0, "distinct": 0, "wall_s": 0.0, "rc": 0}
+    cur = path
+    doc = None
+    try:
+        for attempt in range(max_retries + 1):
+            out, stats = run_tlc("Trace.tla", "Trace.cfg", workers=workers, env={"TRACE_FILE": cur}, timeout=timeout, scratch=scratch)
+            for k in ("generated", "distinct", "wall_s"):
+                total[k] += stats[k]
+            for v in parse_printed_json(out):
+                verdicts[v["id"]] = v
+            if "Error:" not in out:
+                break
+            m = re.search(r"/\\ cid = (\d+)", out)
+            if not m:
+                raise MachineryError("TLC error during trace validation of %s:\n%s" % (path, out[:300] + out[-2500:]))
+            if doc is None:
+                with open(path) as f:
+                    doc = json.load(f)
+            ci = int(m.group(1))
+            nc = len(doc["cases"])
+            bad = doc["cases"][ci - 1] if ci <= nc else doc["sessions"][ci - nc - 1]
+            msg = re.search(r"The exception was a [^\n]*\n: ([^\n]*(?:\n[^\n]*){0,2})", out)
+            why = (msg.group(1) if msg else "TLC evaluation error")[:300]
+            verdicts[bad["id"]] = {"id": bad["id"], "st": "spec-error", "at": 0, "why": why}
+            if ci <= nc:
+                for x in doc["sessions"]:
+                    if ci in x["cs"]:
+                        verdicts[x["id"]] = {"id": x["id"], "st": "spec-error", "at": 0, "why": "member call: " + why}
+            doc["done"] = sorted(verdicts)
+            if len(verdicts) >= nc + len(doc["sessions"]):
+                break
+            cur = path + ".retry"
+            with open(cur, "w") as f:
+                json.dump(doc, f, separators=(",", ":"))
+        else:
+            raise MachineryError("too many TLC evaluation errors in %s" % path)
+    finally:
+        if cur != path and os.path.exists(cur):
+            os.remove(cur)
+    return list(verdicts.values()), total
